@@ -1070,3 +1070,35 @@ func derefType(t types.Type) types.Type {
 	}
 	return t
 }
+
+// partOf: fn is target, or a private helper / function literal that belongs
+// to target through the chain of its single callers.
+func partOf(fn, target *ssa.Function) bool {
+	for i := 0; i < 4 && fn != nil; i++ {
+		if fn == target {
+			return true
+		}
+		if fn.Parent() != nil {
+			fn = fn.Parent()
+			continue
+		}
+		if !isPrivateHelper(fn) {
+			return false
+		}
+		sites := staticSites[fn]
+		if len(sites) == 0 {
+			return false
+		}
+		owner := sites[0].Parent()
+		for _, s := range sites {
+			if s.Parent() != owner {
+				return false
+			}
+		}
+		if owner == fn {
+			return false
+		}
+		fn = owner
+	}
+	return false
+}
